@@ -421,8 +421,13 @@ class Session:
             self._restore_cfg()
 
     def _new_root(self, hid, res):
-        self.objs[hid] = self.resources[res].new_handle(write_concern=self.cfg.get("wc", False))
+        data = (self.case.get("root_data") or {}).get(str(hid))
+        kw = {"data": model.norm(model.decode(data))} if data is not None else {}
+        self.objs[hid] = self.resources[res].new_handle(write_concern=self.cfg.get("wc", False), **kw)
         self.model.add_root(hid, res)
+        if data is not None:
+            # constructor data is taken as the (in-memory) content without touching the resource
+            self.model.logical[res] = model.norm(model.decode(data))
 
     def unwind(self):
         while self.ctx_stack:
